@@ -376,8 +376,12 @@ static yaclib::IExecutor& Exec(const ExRef& e) {
       return yaclib::MakeInline();
     case 's':
       return yaclib::MakeInline(yaclib::StopTag{});
-    default:
-      return W->execs[e.k];
+    default: {
+      cnt::Off off;  // an executor that no cfg line declared is created here: not a library allocation
+      auto& x = W->execs[e.k];
+      x.k = e.k;
+      return x;
+    }
   }
 }
 
